@@ -20,6 +20,8 @@
  *               x genuine with a wrong Echo | f genuine with the last tag byte flipped |
  *               F protected under another master secret | P Partial IV bytes of a genuine
  *               message overwritten with <hexseq>
+ *        A token that occurred earlier in the same case re-delivers the very same datagram (a
+ *        replay on the wire).
  *        -> per message  <A|R|D|C|E|?code>,<last_seq>,<window>,<initial>
  *           A handler ran; R 4.01 unprotected; D 4.00; C protected reply, handler did not run;
  *           E nothing (or an empty ACK) sent
@@ -280,6 +282,10 @@ static void classify(char *out, size_t outn, int calls_before) {
   snprintf(out, outn, "E");
 }
 
+#define MAXMSG 256
+static uint8_t msg_buf[MAXMSG][160];
+static size_t msg_len[MAXMSG];
+
 static void cmd_rpd(void) {
   client_t good = {0}, bad = {0};
   int b12, con;
@@ -300,7 +306,15 @@ static void cmd_rpd(void) {
     client_t *c = (kind == 'F') ? &bad : &good;
     uint64_t gen_seq = seq;
     char verdict[16];
-    int before;
+    int before, prev = -1;
+    for (int j = 5; j < i && j - 5 < MAXMSG; j++)
+      if (!strcmp(vtok[j], vtok[i]) && msg_len[j - 5]) { prev = j - 5; break; }
+    if (i - 5 < MAXMSG) msg_len[i - 5] = 0;
+    if (prev >= 0) {
+      n = msg_len[prev];
+      memcpy(dg, msg_buf[prev], n);
+      goto deliver;
+    }
     if (kind == 'e') { memcpy(echo, rcp->echo_value, 8); ep = echo; el = 8; }
     if (kind == 'x') { memcpy(echo, rcp->echo_value, 8); echo[0] ^= 0x5a; ep = echo; el = 8; }
     if (kind == 'P') gen_seq = (seq >= OSCORE_SEQ_MAX - 2) ? seq - 2 : (seq ^ 1);
@@ -323,6 +337,11 @@ static void cmd_rpd(void) {
       }
       for (int k = 0; k < pl; k++) ov[1 + k] = (uint8_t)(seq >> (8 * (pl - 1 - k)));
     }
+    if (i - 5 < MAXMSG && n <= sizeof(msg_buf[0])) {
+      memcpy(msg_buf[i - 5], dg, n);
+      msg_len[i - 5] = n;
+    }
+deliver:
     ncap = 0;
     before = handler_calls;
     coap_lock_lock(sctx, goto done);
